@@ -29,7 +29,7 @@ fn thue_morse(len: usize) -> Vec<u8> {
     (0..len).map(|i| if (i as u64).count_ones() % 2 == 0 { b'a' } else { b'b' }).collect()
 }
 
-const FAMILIES: [&str; 22] = [
+const FAMILIES: [&str; 23] = [
     "am1b_in_a",            // a^(m-1)b in a^n: every position a long partial match
     "am1b_in_am1c",         // a^(m-1)b in (a^(m-1)c)^r
     "am1b_in_am2_bm1",      // a^(m-1)b in (a^(m-2) b^(m-1))^r: every a is a candidate that fails late
@@ -47,6 +47,7 @@ const FAMILIES: [&str; 22] = [
     "suffix_breaks_period", // (zq)^k ' ' in (zq)^n (mirror image)
     "b_then_a_run",         // b a^k in a^n b a^(k-1) ... with b planted so that the prefilter stays busy
     "a_run_then_b",         // mirror image
+    "prefix_then_periodic", // (ab)^k bb behind a candidate-free prefix and a long (ab)* run: every other offset is a candidate agreeing with almost the whole needle
     "matches_then_barren",  // a^m matches densely in the first half, second half barren
     "barren_then_matches",  // mirror image
     "dense_1byte",          // needle "a" in a^n
@@ -177,6 +178,14 @@ fn instance(family: &str, n: usize, m: usize) -> (Vec<u8>, Vec<u8>) {
             u[m - 1] = b'b';
             (nd, rep(&u, n))
         }
+        "prefix_then_periodic" => {
+            let mut nd = rep(b"ab", m - 2);
+            nd.extend_from_slice(b"bb");
+            let mut h = vec![b'z'; n / 2];
+            h.extend(rep(b"ab", n / 2 - 2));
+            h.extend_from_slice(b"bb");
+            (nd, h)
+        }
         "matches_then_barren" => {
             let mut h = vec![b'a'; n / 2];
             h.extend(vec![b'x'; n - n / 2]);
@@ -196,41 +205,41 @@ fn instance(family: &str, n: usize, m: usize) -> (Vec<u8>, Vec<u8>) {
 
 const OPS: [&str; 8] = ["find", "rfind", "find_iter", "rfind_iter", "memmem_find", "memmem_rfind", "find_nopre", "find_iter_nopre"];
 
+/// Returns (checksum, number of matches yielded).
 #[inline(never)]
-fn measured_call(op: &str, needle: &[u8], hay: &[u8]) -> u64 {
+fn measured_call(op: &str, needle: &[u8], hay: &[u8]) -> (u64, u64) {
+    let one = |o: Option<usize>| (o.map(|x| x as u64 + 1).unwrap_or(0), o.is_some() as u64);
     match op {
-        "find" => memmem::Finder::new(needle).find(hay).map(|x| x as u64 + 1).unwrap_or(0),
-        "find_nopre" => memmem::FinderBuilder::new()
-            .prefilter(memmem::Prefilter::None)
-            .build_forward(needle)
-            .find(hay)
-            .map(|x| x as u64 + 1)
-            .unwrap_or(0),
+        "find" => one(memmem::Finder::new(needle).find(hay)),
+        "find_nopre" => one(memmem::FinderBuilder::new().prefilter(memmem::Prefilter::None).build_forward(needle).find(hay)),
         "find_iter_nopre" => {
             let f = memmem::FinderBuilder::new().prefilter(memmem::Prefilter::None).build_forward(needle);
-            let mut c = 0u64;
+            let (mut c, mut k) = (0u64, 0u64);
             for p in f.find_iter(hay) {
                 c = c.wrapping_add(p as u64 + 1);
+                k += 1;
             }
-            c
+            (c, k)
         }
-        "rfind" => memmem::FinderRev::new(needle).rfind(hay).map(|x| x as u64 + 1).unwrap_or(0),
+        "rfind" => one(memmem::FinderRev::new(needle).rfind(hay)),
         "find_iter" => {
-            let mut c = 0u64;
+            let (mut c, mut k) = (0u64, 0u64);
             for p in memmem::find_iter(hay, needle) {
                 c = c.wrapping_add(p as u64 + 1);
+                k += 1;
             }
-            c
+            (c, k)
         }
         "rfind_iter" => {
-            let mut c = 0u64;
+            let (mut c, mut k) = (0u64, 0u64);
             for p in memmem::rfind_iter(hay, needle) {
                 c = c.wrapping_add(p as u64 + 1);
+                k += 1;
             }
-            c
+            (c, k)
         }
-        "memmem_find" => memmem::find(hay, needle).map(|x| x as u64 + 1).unwrap_or(0),
-        "memmem_rfind" => memmem::rfind(hay, needle).map(|x| x as u64 + 1).unwrap_or(0),
+        "memmem_find" => one(memmem::find(hay, needle)),
+        "memmem_rfind" => one(memmem::rfind(hay, needle)),
         _ => panic!("unknown op {}", op),
     }
 }
@@ -240,7 +249,7 @@ fn main() {
     if a.first().map(|s| s.as_str()) == Some("list") {
         let thorough = a.get(1).map(|s| s == "thorough").unwrap_or(false);
         let ns: &[usize] = if thorough { &[1 << 12, 1 << 14, 1 << 16, 1 << 18, 1 << 20] } else { &[1 << 12, 1 << 15] };
-        let ms: &[usize] = if thorough { &[8, 24, 32, 33, 64, 200, 250, 1000, 4000, 16000] } else { &[8, 32, 33, 250, 1000, 4000] };
+        let ms: &[usize] = if thorough { &[8, 24, 32, 33, 64, 200, 250, 1000, 4000, 16000] } else { &[8, 32, 33, 250, 1000, 4000, 8000] };
         for fam in FAMILIES {
             let dense = fam.starts_with("dense_");
             // forward families also run the reverse operations (they are the
@@ -266,6 +275,17 @@ fn main() {
                     }
                 }
             }
+            // quadratic behaviour with a small constant only shows at larger
+            // sizes: the families that keep the prefilter switched on also run
+            // at 2^17 (thorough: 2^18) with a needle of n/16 bytes
+            if fam.starts_with("prefix_then") || fam == "rare_pair_everywhere" || fam == "zqee_periodic_blocks" {
+                let big: &[usize] = if thorough { &[1 << 17, 1 << 18] } else { &[1 << 17] };
+                for &n in big {
+                    for m in [n / 16] {
+                        println!("find {} {} {}", fam, n, m);
+                    }
+                }
+            }
         }
         return;
     }
@@ -276,6 +296,6 @@ fn main() {
     // warm the dispatch cells so one-off CPU detection is not measured
     let _ = memchr::memchr(b'x', b"warm up the dispatcher");
     let _ = memchr::memrchr(b'x', b"warm up the dispatcher");
-    let r = measured_call(op, &needle, &hay);
-    println!("RESULT {} {} n={} m={} value={}", op, fam, hay.len(), needle.len(), r);
+    let (r, k) = measured_call(op, &needle, &hay);
+    println!("RESULT {} {} n={} m={} value={} matches={}", op, fam, hay.len(), needle.len(), r, k);
 }
